@@ -303,9 +303,12 @@ BLOCKS = [
     ('rem-ap', [['app', 0], ['app', 1], ['grp', 1], ['edit', 1]], [rem(1), ap(2, 'and')]),
     ('add-ap', [['app', 0], ['grp', 1], ['edit', 1]], [add(1), ap(2, 'or')]),
     ('rem-empty', [['app', 0], ['grp', 1], ['edit', 1]], [rem(0), ap(2)]),
-    # the collection commands (clean and not: re-adding, removing absent / non-last datasets)
+    # the collection commands, every kind: re-adding a present dataset, removing an absent one,
+    # removing the first / middle / last dataset (undo must put it back where it was: F4b-d)
     ('data', [], [add(0), add(1), rem(0)]),
     ('data2', [['app', 0], ['app', 1], ['grp', 1]], [rem(0), rem(1), add(2)]),
+    ('data3', [['app', 2], ['app', 0], ['app', 1]], [rem(2), rem(0), add(2)]),
+    ('data-mid', [['app', 0], ['app', 1], ['app', 2], ['grp', 2], ['edit', 1]], [rem(1), ap(1, 'or')]),
 ]
 
 # blocks whose words of length 6 are enumerated in the quick tier (length 5 for the others)
@@ -325,8 +328,9 @@ RANDOM_SETUPS = [
 
 
 def random_command(rng, shadow, clean_only):
-    """shadow = list of datasets in the collection according to a naive add/remove bookkeeping (only
-    used to steer the generator towards / away from the constructs of the known findings)."""
+    """shadow = the datasets in the collection, in order, according to a bookkeeping in which undo
+    restores exactly (only used to steer the generator: `clean_only` avoids re-adding a present
+    dataset and removing an absent or non-last one, the constructs of F4b-d)."""
     r = rng.random()
     if r < 0.22:
         cand = [d for d in range(ND) if d not in shadow] if clean_only else list(range(ND))
@@ -367,49 +371,6 @@ def random_word(rng, length, setup, clean_only):
             elif c[1][0] == 'rem' and c[1][1] in shadow:
                 shadow = [d for d in shadow if d != c[1][1]]
     return ops
-
-
-def is_clean(case):
-    """Does the history avoid AddData of a present dataset and RemoveData of an absent / non-last one?
-    A naive bookkeeping of dc.data through do / undo / redo as coded — only used to stratify the
-    generators and to keep the shrinker on one side; the verdicts (and `p`) come from Lean."""
-    _n, setup, ops = case
-    cur = [s[1] for s in setup if s[0] == 'app']
-    done, undone = [], []
-
-    def do(c):
-        nonlocal cur
-        ok = True
-        if c[0] == 'add':
-            ok = c[1] not in cur
-            if ok:
-                cur = cur + [c[1]]
-        elif c[0] == 'rem':
-            ok = bool(cur) and cur[-1] == c[1]
-            if c[1] in cur:
-                cur = [d for d in cur if d != c[1]]
-        return ok
-
-    for op in ops:
-        if op[0] == 'do':
-            if not do(op[1]):
-                return False
-            done.append(op[1])
-            done[:] = done[-command_module.MAX_UNDO:]
-            undone = []
-        elif op[0] == 'undo' and done:
-            c = done.pop()
-            undone.append(c)
-            if c[0] == 'add' and c[1] in cur:
-                cur = [d for d in cur if d != c[1]]
-            elif c[0] == 'rem' and c[1] not in cur:
-                cur = cur + [c[1]]
-        elif op[0] == 'redo' and undone:
-            c = undone.pop()
-            if not do(c):
-                return False
-            done.append(c)
-    return True
 
 
 class Word(Family):
@@ -453,15 +414,6 @@ class Word(Family):
         return {"construct": res.get("blame", "?")}
 
     def shrink(self, case):
-        # a candidate must stay on the same side of the known-finding constructs as the case itself:
-        # the core accepts any smaller case that fails in the same way (property / model), so a
-        # clean failing history must not be allowed to drift into one of the listed constructs
-        c0 = is_clean(case)
-        for cand in self._shrink(case):
-            if is_clean(cand) == c0:
-                yield cand
-
-    def _shrink(self, case):
         n, setup, ops = case
         for k in range(len(ops) - 1, 0, -1):
             yield [n, setup, ops[:k]]
@@ -482,6 +434,15 @@ class Word(Family):
         yield [ND, [['app', 0], ['app', 1]], [ap(1), ap(2, 'and'), rem(1), U, U, U]]
         yield [ND, [['app', 0]], [ap(1), rem(0), ap(2), U, U]]
         yield [ND, [['app', 0]], [ap(1), ap(2, 'new'), ap(3, 'xor'), U, U, U, R, R, R]]
+        # regression: F4b (position), F4c (re-adding), F4d (removing an absent dataset) and relatives
+        yield [ND, [['app', 0], ['app', 1]], [rem(0), U]]
+        yield [ND, [['app', 0]], [add(0), U]]
+        yield [ND, [['app', 0]], [rem(1), U]]
+        yield [ND, [['app', 0], ['app', 1], ['app', 2]], [rem(1), U, R, U]]
+        yield [ND, [['app', 0], ['app', 1], ['app', 2]], [rem(0), rem(1), U, U, R, R, U, U]]
+        yield [ND, [['app', 2], ['app', 1], ['app', 0], ['grp', 1]], [rem(2), rem(0), rem(1), U, U, U, R, U]]
+        yield [ND, [['app', 0], ['app', 1], ['grp', 1], ['edit', 1]], [rem(0), ap(2, 'and'), add(0), add(0), U, U, U, U, R, R, R, R]]
+        yield [ND, [['app', 1]], [rem(0), add(1), add(0), rem(2), U, U, U, U, R, R, R, R, U]]
         for name, setup, cmds in BLOCKS:
             alphabet = cmds + [U, R]
             if tier == "quick":
@@ -506,9 +467,10 @@ class Word(Family):
 
 
 class WordRandom(Word):
-    """seeded random longer words over all commands, random set-ups; two strata: histories that avoid
-    the constructs of the known findings (re-adding a present dataset, removing an absent or
-    non-last one) and unrestricted ones."""
+    """seeded random longer words over all commands, random set-ups; two strata: histories whose
+    collection commands are all of the plain kind (adding an absent dataset, removing the last one)
+    and unrestricted ones (re-adding a present dataset, removing an absent or non-last one: the
+    constructs of the fixed findings F4b-d)."""
     name = "wordr"
     exhaustive = False
     batch = 100
@@ -518,10 +480,10 @@ class WordRandom(Word):
         n_short, n_long = (2000, 120) if tier == "quick" else (30000, 2000)
         for i in range(n_short):
             setup = rng.choice(RANDOM_SETUPS)
-            yield [ND, setup, random_word(rng, rng.randint(7, 16), setup, clean_only=(i % 4 != 0))]
+            yield [ND, setup, random_word(rng, rng.randint(7, 16), setup, clean_only=(i % 2 != 0))]
         for i in range(n_long):
             setup = rng.choice(RANDOM_SETUPS)
-            yield [ND, setup, random_word(rng, rng.randint(17, 45), setup, clean_only=(i % 4 != 0))]
+            yield [ND, setup, random_word(rng, rng.randint(17, 45), setup, clean_only=(i % 2 != 0))]
 
 
 class Bound(Word):
@@ -543,6 +505,9 @@ class Bound(Word):
                     ops.append(ap(1 + i % 3, ['and', 'or', 'xor', 'andnot', 'replace'][i % 5]))
                 elif v == 1:
                     ops.append(add(1) if i % 2 == 0 else rem(1))
+                elif v == 2:
+                    # the first dataset leaves and comes back (undo must re-insert it in front)
+                    ops.append([rem(0), rem(0), add(0), add(0), rem(1), add(1)][i % 6])
                 else:
                     r = rng.random()
                     if r < 0.15:
@@ -556,18 +521,18 @@ class Bound(Word):
             yield [ND, setup, ops]
 
 
-class WordIdeal(WordRandom):
-    """NOT part of the check: the same cases judged against the `Ideal` model (AddData / RemoveData as
-    the property demands them).  Used by hand against a scratch tree that carries
-    props.d/C13/proposed/add-remove-data-undo.diff, to validate the model that
-    `ideal_zipper_refinement` is about (see props.d/C13/design.md)."""
-    name = "wordideal"
-    line_name = "wordideal"
+class WordPre(WordRandom):
+    """NOT part of the check: the same cases judged against the `PreF4b` model (code with fix F4 but
+    before fix F4b), used by hand against a tree without props.d/C13/fixes/F4b-add-remove-data-undo.diff
+    to validate the model that the `pre_f4b_*` witnesses are about (see props.d/C13/design.md)."""
+    name = "wordpre"
+    line_name = "wordpre"
 
 
 class WordOld(WordRandom):
-    """NOT part of the check: the same cases judged against the `Old` model (code before fix F4), used
-    by hand against a tree without the fix to validate the model the `old_*` witnesses are about."""
+    """NOT part of the check: the same cases judged against the `Old` model (code before fix F4 and
+    fix F4b), used by hand against a tree without the fixes to validate the model the `old_*`
+    witnesses are about."""
     name = "wordold"
     line_name = "wordold"
 
@@ -577,11 +542,12 @@ PROP = Property(
     title="Undo restores the previous session state and redo restores the undone one",
     theorems=["C13.undo_do", "C13.redo_undo_do", "C13.redo_undo", "C13.undo_redo", "C13.do_clears_redo",
               "C13.stack_le_max", "C13.empty_stack_errors", "C13.setup_wf",
-              "C13.zipper_refinement_partial", "C13.masks_of_observe",
-              "C13.ideal_zipper_refinement", "C13.ideal_vs_impl",
+              "C13.zipper_refinement", "C13.masks_of_observe",
+              "C13.pre_f4b_refinement_on_clean", "C13.impl_vs_pre_f4b",
               "C13.spec_undo_after_do", "C13.spec_redo_after_undo", "C13.spec_redo_after_do", "C13.spec_bound",
               "C13.old_undo_apply_new_group", "C13.old_redo_creates_nothing", "C13.old_undo_empty_collection",
-              "C13.remove_undo_reorders", "C13.add_present_undo_removes", "C13.remove_absent_undo_appends"],
+              "C13.pre_f4b_remove_undo_reorders", "C13.pre_f4b_add_present_undo_removes",
+              "C13.pre_f4b_remove_absent_undo_appends"],
     families=[Word(), WordRandom(), Bound()],
     trusted_base=["CPython list semantics; hub delivery order of the subset groups = subscription order (as in C06)",
                   "the six atomic states / ROIs are opaque: their masks on the three datasets are literal tables of the harness (checked against numpy at import); roi_to_subset_state is exercised, its result treated as an atom (C09 is about it)",
@@ -589,6 +555,5 @@ PROP = Property(
     assumptions=["every subset belongs to a subset group (clients create subsets only through new_subset_group)",
                  "between the first command and the end of the history the session is changed only through the command stack (the edit subset, the edit mode and the groups existing before the history are arbitrary)",
                  "data links are outside the observation (LinkManager drops the links of a removed dataset and RemoveData.undo does not restore them; the harness uses shared component ids instead of links)"],
-    rule="exhaustive: every word of exactly L letters over {c1, c2, undo, redo} (quick: L = 6 for 3 blocks, 5 for 11; thorough: 8 for 1 block, 7 for 13) or {c1, c2, c3, undo, redo} (L = 5 / 6) for 16 blocks (set-up, commands) covering group-creating ApplySubsetState / ApplyROI, NewMode as override and as current mode, And/Or/Xor/AndNot/Replace on one- and two-group edit subsets, an empty edit subset next to existing groups, AddData / RemoveData interleaved with selections; thorough also every word of length 9 over {c, undo, redo} for 8 (set-up, command) pairs; all prefixes are checked through the per-letter observations. random: seeded words of length 7-45 over all commands from 10 set-ups (3 of 4 avoid the known-finding constructs). bound: MAX_UNDO+10 commands, MAX_UNDO+2 undos, redos. non-trivial = an undo after a do",
-    partial_note="zipper_refinement_partial holds for histories whose AddData commands add an absent dataset and whose RemoveData commands remove the last dataset of the collection (p=T); outside, the code as it is violates the property (three known findings, decide'd witnesses) and the model reproduces that behaviour (comparison (a) still checked).",
+    rule="exhaustive: every word of exactly L letters over {c1, c2, undo, redo} (quick: L = 6 for 3 blocks, 5 for 12; thorough: 8 for 1 block, 7 for 14) or {c1, c2, c3, undo, redo} (L = 5 / 6) for 18 blocks (set-up, commands) covering group-creating ApplySubsetState / ApplyROI, NewMode as override and as current mode, And/Or/Xor/AndNot/Replace on one- and two-group edit subsets, an empty edit subset next to existing groups, AddData / RemoveData interleaved with selections, AddData of present and RemoveData of absent / first / middle / last datasets of a three-dataset collection; thorough also every word of length 9 over {c, undo, redo} for 8 (set-up, command) pairs; all prefixes are checked through the per-letter observations. random: seeded words of length 7-45 over all commands from 10 set-ups (half of them restricted to plain add / remove-last collection commands). bound: MAX_UNDO+10 commands, MAX_UNDO+2 undos, redos. non-trivial = an undo after a do",
 )
